@@ -1593,17 +1593,17 @@ var compareOps = map[string]rel.CompareFunc{
 	"<=": func(a, b rel.Value) (bool, error) { return !b.Less(a), nil },
 	">=": func(a, b rel.Value) (bool, error) { return !a.Less(b), nil },
 
-	"(<)":   func(a, b rel.Value) (bool, error) { return subset(a, b), nil },
-	"(>)":   func(a, b rel.Value) (bool, error) { return subset(b, a), nil },
-	"(<=)":  func(a, b rel.Value) (bool, error) { return subsetOrEqual(a, b), nil },
-	"(>=)":  func(a, b rel.Value) (bool, error) { return subsetOrEqual(b, a), nil },
-	"(<>)":  func(a, b rel.Value) (bool, error) { return subsetOrSuperset(a, b), nil },
-	"(<>=)": func(a, b rel.Value) (bool, error) { return subsetSupersetOrEqual(b, a), nil },
+	"(<)":   setCompare("(<)", false, func(a, b rel.Value) bool { return subset(a, b) }),
+	"(>)":   setCompare("(>)", false, func(a, b rel.Value) bool { return subset(b, a) }),
+	"(<=)":  setCompare("(<=)", false, func(a, b rel.Value) bool { return subsetOrEqual(a, b) }),
+	"(>=)":  setCompare("(>=)", false, func(a, b rel.Value) bool { return subsetOrEqual(b, a) }),
+	"(<>)":  setCompare("(<>)", false, func(a, b rel.Value) bool { return subsetOrSuperset(a, b) }),
+	"(<>=)": setCompare("(<>=)", false, func(a, b rel.Value) bool { return subsetSupersetOrEqual(b, a) }),
 
-	"!(<)":   func(a, b rel.Value) (bool, error) { return !subset(a, b), nil },
-	"!(>)":   func(a, b rel.Value) (bool, error) { return !subset(b, a), nil },
-	"!(<=)":  func(a, b rel.Value) (bool, error) { return !subsetOrEqual(a, b), nil },
-	"!(>=)":  func(a, b rel.Value) (bool, error) { return !subsetOrEqual(b, a), nil },
-	"!(<>)":  func(a, b rel.Value) (bool, error) { return !subsetOrSuperset(a, b), nil },
-	"!(<>=)": func(a, b rel.Value) (bool, error) { return !subsetSupersetOrEqual(b, a), nil },
+	"!(<)":   setCompare("!(<)", true, func(a, b rel.Value) bool { return subset(a, b) }),
+	"!(>)":   setCompare("!(>)", true, func(a, b rel.Value) bool { return subset(b, a) }),
+	"!(<=)":  setCompare("!(<=)", true, func(a, b rel.Value) bool { return subsetOrEqual(a, b) }),
+	"!(>=)":  setCompare("!(>=)", true, func(a, b rel.Value) bool { return subsetOrEqual(b, a) }),
+	"!(<>)":  setCompare("!(<>)", true, func(a, b rel.Value) bool { return subsetOrSuperset(a, b) }),
+	"!(<>=)": setCompare("!(<>=)", true, func(a, b rel.Value) bool { return subsetSupersetOrEqual(b, a) }),
 }
